@@ -19,12 +19,12 @@ type Std struct {
 	// named basics
 	NInt, NStr, NFloat, NBool, NU8 *Type
 	// local structs
-	SV   *Type // pointer-free, ==-comparable struct
-	SP   *Type // struct with pointer / slice / map content
-	SE   *Type // struct embedding SV and *SP
-	SR   *Type // recursive struct
-	SEq  *Type // struct with Equal+Compare methods implemented by derived functions (the idiom)
-	SCi  *Type // struct with custom (case-insensitive) Equal/Compare methods
+	SV  *Type // pointer-free, ==-comparable struct
+	SP  *Type // struct with pointer / slice / map content
+	SE  *Type // struct embedding SV and *SP
+	SR  *Type // recursive struct
+	SEq *Type // struct with Equal+Compare methods implemented by derived functions (the idiom)
+	SCi *Type // struct with custom (case-insensitive) Equal/Compare methods
 	// imported
 	XE    *Type // imported struct, exported fields only
 	XU    *Type // imported struct with unexported fields (nameable types)
@@ -33,8 +33,8 @@ type Std struct {
 	XN    *Type // imported named basic
 	// named composites
 	NSlice, NMap, NArr, NPtr *Type
-	SU *Type // local struct with underscore-prefixed field names and a blank field
-	XT *Type // imported struct whose field types come from a THIRD package
+	SU                       *Type // local struct with underscore-prefixed field names and a blank field
+	XT                       *Type // imported struct whose field types come from a THIRD package
 }
 
 // NewStd declares the standard leaf types.
